@@ -110,6 +110,8 @@ struct St<'r, 'a> {
     /// poison snapshot of the current hold: per flat leaf, per layer (must, may, flying)
     snap: Vec<Vec<(bool, bool, bool, bool)>>,
     private_poison: BTreeMap<PoisonId, PState>,
+    /// the current step runs inside a destructor during an unrelated unwind
+    in_unwind: bool,
 }
 
 struct ClosureScope<'s>(&'s Sched);
@@ -164,6 +166,16 @@ impl<'r, 'a> St<'r, 'a> {
     }
 
     fn pstate(&self, p: &PoisonId) -> (PState, bool) {
+        if self.in_unwind {
+            // guards dropped while thread::panicking() poison what they cover
+            let (mut st, fl) = self.pstate_raw(p);
+            st.may = true;
+            return (st, fl);
+        }
+        self.pstate_raw(p)
+    }
+
+    fn pstate_raw(&self, p: &PoisonId) -> (PState, bool) {
         if let PoisonId::Private(_) = p {
             return (self.private_poison.get(p).copied().unwrap_or_default(), false);
         }
@@ -212,9 +224,12 @@ impl<'r, 'a> St<'r, 'a> {
             if pos.is_empty() {
                 continue;
             }
-            let contiguous = pos.len() == us.leaves.len() && pos.windows(2).all(|w| w[1] == w[0] + 1);
+            // (the order *inside* the unit is covered by the pairwise relation below)
+            let mut sorted = pos.clone();
+            sorted.sort();
+            let contiguous = pos.len() == us.leaves.len() && sorted.windows(2).all(|w| w[1] == w[0] + 1);
             if !contiguous {
-                s.report(Clause::UnitSplit, format!("owned unit {} (leaves {:?}) was not acquired as one contiguous group in its own order: sequence {:?}", u, us.leaves, lids));
+                s.report(Clause::UnitSplit, format!("owned unit {} (leaves {:?}) was not acquired as one indivisible group: sequence {:?}", u, us.leaves, lids));
             }
         }
         let mut m = self.r.model.lock().unwrap();
@@ -405,7 +420,15 @@ impl<'r, 'a> St<'r, 'a> {
         };
         let scoped = ctx.acq.api.is_scoped();
         let mut m = self.r.model.lock().unwrap();
+        // a Poisonable nested directly inside another Poisonable (no collection involved) is not
+        // named by the statement of C10: record only that it *may* have been poisoned
+        let nested_leaf_layer = |p: &PoisonId| matches!((spec.resolve(&spec.targets[ctx.acq.target]).0, p), (TSpec::Leaf(_), PoisonId::Leaf(_, d)) if *d >= 1);
         for p in &ids {
+            if nested_leaf_layer(p) {
+                let e = m.poison.entry(p.clone()).or_default();
+                e.may = true;
+                continue;
+            }
             let direct = !scoped || receiver.as_ref() == Some(p);
             let e = if let PoisonId::Private(_) = p { self.private_poison.entry(p.clone()).or_default() } else { m.poison.entry(p.clone()).or_default() };
             e.may = true;
@@ -421,8 +444,11 @@ impl<'r, 'a> St<'r, 'a> {
     fn nonacq(&mut self, op: NonAcqOp, t: usize) {
         let s = self.s();
         let world = self.r.world;
+        static NO_NODE: Node = Node::Group0;
         let node = match world.target(t) {
             Some(n) => n,
+            // a target whose checked constructor rejected its input can still be constructed again
+            None if op == NonAcqOp::Construct => &NO_NODE,
             None => return,
         };
         self.probe(|p| p.nonacq_ops += 1);
@@ -871,7 +897,7 @@ impl<'r, 'a> Th<'r, 'a> {
             Node::PDBoxed(c) => self.run_api(&**c, ctx),
             Node::PDRetry(c) => self.run_api(&**c, ctx),
             Node::RUnit(u) => self.run_api(*u, ctx),
-            Node::Group(_) => self.st.s().report(Clause::Harness, "a bare container was generated as a top-level target".into()),
+            Node::Group(_) | Node::Group0 => self.st.s().report(Clause::Harness, "a bare container was generated as a top-level target".into()),
         }
     }
 
@@ -1057,8 +1083,10 @@ impl<'r, 'a> Th<'r, 'a> {
             self.after_raw_fault(step, &recs);
         } else {
             let msg = panic_message(&*payload);
-            if msg.starts_with("happysim:") {
-                s.report(Clause::Harness, msg);
+            let loc = crate::LAST_PANIC_LOC.with(|l| l.borrow().clone());
+            let in_harness = loc.starts_with("src/") || loc.contains("/sim/src/");
+            if msg.starts_with("happysim:") || in_harness {
+                s.report(Clause::Harness, format!("{} (at {})", msg, loc));
             } else if self.st.raw_faults() && msg.contains("killed") {
                 // acquiring a lock that an earlier fault killed panics by design
                 self.st.probe(|p| p.lib_panics += 1);
@@ -1112,7 +1140,8 @@ impl<'r, 'a> Th<'r, 'a> {
                     self.kh.key = Some(k);
                     self.kh.alive = true;
                 }
-                None => s.report(Clause::RawLeak, format!("after a raw-lock panic unwound out of step {}, ThreadKey::get() returns None", self.st.step)),
+                // (the statement of C12 does not mention the key; nothing is reported here)
+                None => {}
             }
         }
         self.fault_probes();
@@ -1239,10 +1268,12 @@ impl<'r, 'a> Th<'r, 'a> {
                 }
             }
             let me: *mut Th<'r, 'a> = self;
+            self.st.in_unwind = true;
             let _ = catch_unwind(AssertUnwindSafe(|| {
                 let _d = RunOnDrop(me, i, &**inner);
                 resume_unwind(Box::new(Injected));
             }));
+            self.st.in_unwind = false;
             return;
         }
         let depth = s.api_depth();
@@ -1454,7 +1485,7 @@ pub fn run_scenario(scn: &Scenario) -> RunResult {
                     r.sched.thread_start(tid);
                     let res = catch_unwind(AssertUnwindSafe(|| {
                         let mut th = Th {
-                            st: St { r, tid, step: 0, opseq: 0, snap: Vec::new(), private_poison: BTreeMap::new() },
+                            st: St { r, tid, step: 0, opseq: 0, snap: Vec::new(), private_poison: BTreeMap::new(), in_unwind: false },
                             kh: KeyHolder { key: None, alive: false, leaked: false, extra: Vec::new() },
                             cell: KeyProbeCell { extra: RefCell::new(Vec::new()) },
                         };
